@@ -960,8 +960,9 @@ def scen_s2b_twice(ctx, M):
     """two consecutive calls with different unit systems: the second result
     must not depend on the first call (no state carried between calls)"""
     su = M.su
-    pre = ctx.str('pre', 1, frozenset(b'kKMGTPEZYRQ'))
-    text = cat('3', pre, 'B')
+    # concrete prefix (a choice): implementations may key tables by it
+    pre = ctx.choice('pre', list('kKMGTPEZYRQ'))
+    text = '3' + pre + 'B'
     systems = ['IEC', 'SI', 'mixed']
     s1 = ctx.choice('sys1', systems)
     s2 = ctx.choice('sys2', systems)
@@ -992,7 +993,7 @@ def scen_s2b_twice(ctx, M):
         table = UN.prefixes(sysname)
         hit = None
         for pf, be in sorted(table.items()):
-            if len(pf) == 1 and ctx.truth(pre == pf):
+            if pre == pf:
                 hit = be
         if hit is None:
             ctx.check('C10-twice-valueerror', out == 'ValueError')
